@@ -224,7 +224,32 @@ def _cases_units():
 
 
 def _ops_jobs(fn, nmax, lo=2, **kw):
-    return _jobs("r_reg_ops", fn, range(lo, nmax + 1), nmax=nmax, **kw)[:-1]  # no size-independent part
+    """Jobs for the operator / form suites, split by grid size and by order (pair) so that the large
+    grid sizes do not end up in one worker."""
+    from . import r_reg_ops
+    jobs = []
+    for n in range(lo, nmax + 1):
+        base = dict(kw, nmax=nmax, ns=[n], fixed=False)
+        if fn == "operator_suite":
+            names = sorted(kw.get("cases") or r_reg_ops.OP_CASES)
+            fac = [c for c in names if r_reg_ops.OP_CASES[c][2] is not None]
+            plain = [c for c in names if r_reg_ops.OP_CASES[c][2] is None]
+            for A in kw.get("orders", (0, 1, 2, 3)):
+                if plain:
+                    jobs.append(("bsv.r_reg_ops", fn, dict(base, orders=(A,), cases=plain)))
+                for c in fac:
+                    jobs.append(("bsv.r_reg_ops", fn, dict(base, orders=(A,), cases=[c])))
+        elif fn in ("bilinear_suite", "quadrature_suite"):
+            for pr in kw.get("order_pairs", ((1, 1), (2, 1), (0, 3), (2, 2))):
+                jobs.append(("bsv.r_reg_ops", fn, dict(base, order_pairs=(pr,))))
+        elif fn == "linear_suite":
+            for A in kw.get("orders", (0, 1, 2, 3)):
+                jobs.append(("bsv.r_reg_ops", fn, dict(base, orders=(A,))))
+        else:
+            jobs.append(("bsv.r_reg_ops", fn, base))
+    # largest first: better load balance
+    jobs.sort(key=lambda j: -j[2]["ns"][0])
+    return jobs
 
 
 def C04():
